@@ -7,7 +7,7 @@ yycheck, yystos, yyr1, yyr2), the constants of the skeleton (YYFINAL, YYLAST, YY
 YYMAXUTOK, YYNSTATES, YYNRULES), the symbol names (yytname), the token codes of grammar.h, and every `case N:` semantic
 action of yyparse's switch, classified by its normalised text into the closed datatype LC.GramAction.gaction (GUnknown
 otherwise).  The file is rewritten only when its content changes."""
-import os, re, sys
+import os, re, sys, json
 
 REPO = os.environ.get("REPO", "/repo")
 VERIF = os.path.dirname(os.path.dirname(os.path.abspath(__file__)))
@@ -101,6 +101,56 @@ import action_texts
 CANON = {ccanon.canon(t): c for c, t in action_texts.GRAMMAR_ACTIONS.items()}
 
 
+def yyparse_skeleton(src):
+    m = re.search(r"^yyparse\s*\([^)]*\)\s*\{", src, re.M)
+    if not m:
+        return None
+    d, j = 0, m.end() - 1
+    while j < len(src):
+        if src.startswith("/*", j):
+            j = src.index("*/", j) + 2
+            continue
+        c = src[j]
+        if c in "\"'":
+            k = j + 1
+            while src[k] != c:
+                k += 2 if src[k] == "\\" else 1
+            j = k + 1
+            continue
+        if c == "{":
+            d += 1
+        elif c == "}":
+            d -= 1
+            if d == 0:
+                break
+        j += 1
+    body = src[m.start():j + 1]
+    a = body.find("switch (yyn)")
+    if a < 0:
+        return None
+    b = body.find("{", a)
+    d, k = 0, b
+    while k < len(body):
+        if body.startswith("/*", k):
+            k = body.index("*/", k) + 2
+            continue
+        c = body[k]
+        if c in "\"'":
+            q = k + 1
+            while body[q] != c:
+                q += 2 if body[q] == "\\" else 1
+            k = q + 1
+            continue
+        if c == "{":
+            d += 1
+        elif c == "}":
+            d -= 1
+            if d == 0:
+                break
+        k += 1
+    return " ".join(ccanon.tokens(body[:b] + "{ ACTIONS }" + body[k + 1:]))
+
+
 def coq_string(s):
     return '"' + s.replace('"', '""') + '"'
 
@@ -174,6 +224,15 @@ def main():
     want_err = ("if(ctx->config->error_text)return;ctx->config->error_line=libconfig_yyget_lineno(scanner);"
                 "ctx->config->error_text=s;")
     flags.append(("libconfig_yyerror", yyerr is not None and want_err in yyerr))
+    # the control flow of yyparse (everything but the user actions inside `switch (yyn)`) is, token for token, the text
+    # LalrEngine.v was transcribed from (tools/skel_ref/bison_yyparse.json)
+    cur = yyparse_skeleton(src)
+    ref_path = os.path.join(VERIF, "tools", "skel_ref", "bison_yyparse.json")
+    if "--write-skel-ref" in sys.argv:
+        os.makedirs(os.path.dirname(ref_path), exist_ok=True)
+        json.dump({"yyparse": cur}, open(ref_path, "w"), indent=1)
+    ref = json.load(open(ref_path)).get("yyparse") if os.path.exists(ref_path) else None
+    flags.append(("yyparse control flow as transcribed", cur is not None and cur == ref))
     out.append("")
     out.append("(* the macros used by the actions and the error routine have the definitions the model assumes *)")
     out.append("Definition g_macros_as_modelled : list (string * bool) :=\n  [" + "; ".join(
